@@ -875,6 +875,16 @@ func c01Curated() []c01Case {
 			add(n, t, map[int]c01Script{n: {c01P3S: B("p3-shares-wrong", 1), c01P7: B("p7-points-partial", 0, 2, 3)}, 1: {c01P4: B("acc-drop", 0), c01P8: B("acc-drop", 0)}})
 			add(n, t, map[int]c01Script{n: {c01P3S: B("p3-shares-wrong", 1), c01P7: B("silent", 0)}, 1: {c01P4: B("acc-drop", 0), c01P10: B("p10-reveal-wrong-key", 0)}})
 			add(n, t, map[int]c01Script{2: {c01P3S: B("p3-conflict-bad-first", 1), c01P7: B("silent", 0)}, 1: {c01P4: B("acc-drop", 0)}})
+			// collusion in phases 7-9: A's public key share points match the
+			// shares of its accomplice B and of one honest member only (the
+			// other honest members accuse A); B, whose share matches, accuses
+			// A as well. Whether B is a false accuser must not depend on the
+			// judge's own phase-8 verdict on A nor on the order in which the
+			// accusations are resolved: several delivery schedules each.
+			for rep := 0; rep < 6; rep++ {
+				add(n, t, map[int]c01Script{1: {c01P7: B("p7-points-partial", 0, 2, 3)}, 2: {c01P8: B("acc-false", 1)}})
+				add(n, t, map[int]c01Script{n: {c01P7: B("p7-points-partial", 0, 1, n-1)}, n - 1: {c01P8: B("acc-false", n)}})
+			}
 		}
 	}
 	return cs
